@@ -316,6 +316,72 @@ def binary_worker(job):
     return part.dump()
 
 
+def repl_worker(job):
+    """the same operations in an interactive session (scripted REPL, logging active): `btcdeb -z <script> <operands>`, step, state dump"""
+    bindir, idx, n = job
+    from vf import proc
+    rng = sub_rng(PROP, 'repl', idx)
+    part = Partial()
+    wd = scratch('c17r')
+    btcdeb = os.path.join(bindir, 'btcdeb')
+    try:
+        for i in range(n):
+            op = rng.choice(UN + BIN + TER)
+            k = 1 if op in UN else 2 if op in BIN else 3
+            if op in (OP_LEFT, OP_RIGHT):
+                st = [rng.choice(POOL), rng.choice(OFFS)]
+            elif op == OP_SUBSTR:
+                st = [rng.choice(BLOBS), rng.choice(OFFS), rng.choice(OFFS)]
+            elif op in (OP_DIV, OP_MOD) and rng.random() < 0.5:
+                st = [rng.choice(POOL), rng.choice([b'', b'', b'\x80', b'\x00'])]      # division by zero, also by a non-canonical zero
+            else:
+                st = [rng.choice(POOL) for _ in range(k)]
+            flagarg = [] if rng.random() < 0.6 else ['--modify-flags=-MINIMALDATA']
+            flags = STANDARD if not flagarg else STANDARD & ~F["MINIMALDATA"]
+            name = OPNAME[op]
+            opts = ['-z'] + flagarg + (['-v'] if rng.random() < 0.3 else [])
+            r, segs = proc.repl_session(btcdeb, opts + ['0x' + bytes([op]).hex()] + ['0x' + x.hex() for x in st], ['step', 'stack'], wd, timeout=60)
+            part.evaluations += 1
+            part.count('repl', '-z' + (' -MINIMALDATA' if flagarg else ''))
+            wit = dict(op=name, stack=[x.hex() for x in st], options=opts, via='btcdeb REPL')
+            if r.abnormal:
+                part.violation('%s:repl:%s' % (name, r.crash_key('btcdeb')), dict(wit, run=r.brief()))
+                continue
+            if len(segs) < 2:
+                part.inconc('repl-session-short')
+                continue
+            it = Interp(bytes([op]), list(st), flags, BASE, allow_disabled=True)
+            try:
+                it.step()
+                ref = ('ok', it.stack)
+            except (ScriptFail, NumErr):
+                ref = ('fail',)
+            d = segs[1]['dump']
+            got = [bytes.fromhex(x) for x in d['stack']]
+            overlong = op in NUMERIC and any(len(x) > 4 for x in st[-(2 if op not in UN else 1):])
+            if ref[0] == 'fail':
+                if d['seq'] != 0 or got != list(st):
+                    part.violation('%s:repl:invalid-operands-accepted' % name, wit)
+                else:
+                    part.nontrivial.add(nt_hash('repl', op, tuple(st), tuple(opts)))
+                continue
+            res = ref[1][-1]
+            if isinstance(res, tuple) and any(v is None or abs(v) >= 2 ** 63 for v in res[1]):
+                continue
+            if d['seq'] == 0:
+                if not overlong:
+                    part.violation('%s:repl:fails-on-valid-operands' % name, wit)
+                continue
+            if not lockstep.stacks_equal(ref[1], got):
+                wit['got'] = d['stack']
+                part.violation('%s:repl:wrong-result' % name, wit)
+                continue
+            part.nontrivial.add(nt_hash('repl', op, tuple(st), tuple(opts)))
+    finally:
+        cleanup_scratch(wd)
+    return part.dump()
+
+
 def main():
     ap = argparse.ArgumentParser()
     ap.add_argument('--tier', default=os.environ.get('VERIF_TIER', 'quick'))
@@ -343,9 +409,11 @@ def main():
         rep.merge(r)
     for r in parallel(binary_worker, [(bindir, i, 40 if a.tier == 'quick' else 2000) for i in range(16)]):
         rep.merge(r)
+    for r in parallel(repl_worker, [(bindir, i, 25 if a.tier == 'quick' else 600) for i in range(16)]):
+        rep.merge(r)
     return rep.finish(
         rule='exhaustive over a boundary pool of %d values (numbers 0,+-1,+-127/128/255/256,2^15,2^31-1,2^39-1, negative zero, blobs of length 0..12, unequal lengths) for all arities of the 15 opcodes, '
-             'x {no flags, standard flags}; disabled / unexecuted variants on a 1/16 operand sample (they do not depend on operands); thorough adds 2.5M random operand tuples; a sample runs through the real binary (`btcdeb -z <script> <operands>` and the same without the option, non-interactive). '
+             'x {no flags, standard flags}; disabled / unexecuted variants on a 1/16 operand sample (they do not depend on operands); thorough adds 2.5M random operand tuples; a sample runs through the real binary (`btcdeb -z <script> <operands>` and the same without the option, non-interactive) and through interactive sessions (scripted REPL with logging active: step, state dump). '
              'non-trivial = distinct (opcode, operands, flags, mode) judged against the reference function (computed result or required failure)' % len(POOL),
         assumptions=['OP_2DIV is judged as `x 2 OP_DIV` (quotient truncated toward zero); rounding of negative values in OP_RSHIFT (a shift, not a division): truncation and floor are both accepted',
                      'numeric operands longer than 4 bytes may be refused as numeric overflow',
